@@ -1,6 +1,7 @@
 import DaskModel.DriverLib
 import DaskModel.Model.Cumulative
 import DaskModel.Model.Overlap
+import DaskModel.Model.Frame
 open Dask
 
 /-! Line-protocol handlers of group dfrows (C36 C37 C42 C43 C46). Cells: an integer or `none`. -/
@@ -179,6 +180,72 @@ def hRollBlockwise : Handler := handler fun args =>
   | [w, n] => do pure (SExp.ofBool (Overlap.rollingIsBlockwise (← w.toNat?) (← n.toNat?)))
   | _ => none
 
+/-! ### C36 -/
+open Dask.Frame in
+def toCmp? : SExp → Option Cmp
+  | .sym "lt" => some .lt | .sym "le" => some .le | .sym "gt" => some .gt
+  | .sym "ge" => some .ge | .sym "eq" => some .eq | .sym "ne" => some .ne
+  | _ => none
+
+open Dask.Frame in
+mutual
+partial def toCE? : SExp → Option CE
+  | .list [.sym "col", .int i] => some (.col i.toNat)
+  | .list [.sym "lit", .int k] => some (.lit k)
+  | .list [.sym "add", a, b] => do pure (.add (← toCE? a) (← toCE? b))
+  | .list [.sym "sub", a, b] => do pure (.sub (← toCE? a) (← toCE? b))
+  | .list [.sym "mul", a, b] => do pure (.mul (← toCE? a) (← toCE? b))
+  | .list [.sym "neg", a] => do pure (.neg (← toCE? a))
+  | .list [.sym "abs", a] => do pure (.abs (← toCE? a))
+  | .list [.sym "fillna", a, .int k] => do pure (.fillna (← toCE? a) k)
+  | .list [.sym "clip", a, .int lo, .int hi] => do pure (.clip (← toCE? a) lo hi)
+  | .list [.sym "where", c, a, o] => do pure (.whereE (← toBE? c) (← toCE? a) (← toCE? o))
+  | .list [.sym "mask", c, a, o] => do pure (.maskE (← toBE? c) (← toCE? a) (← toCE? o))
+  | .list [.sym "ofbool", c] => do pure (.ofBool (← toBE? c))
+  | _ => none
+partial def toBE? : SExp → Option BE
+  | .list [.sym "cmp", op, a, b] => do pure (.cmp (← toCmp? op) (← toCE? a) (← toCE? b))
+  | .list [.sym "isin", a, vals] => do pure (.isin (← toCE? a) (← vals.toInts?))
+  | .list [.sym "isna", a] => do pure (.isna (← toCE? a))
+  | .list [.sym "and", a, b] => do pure (.and (← toBE? a) (← toBE? b))
+  | .list [.sym "or", a, b] => do pure (.or (← toBE? a) (← toBE? b))
+  | .list [.sym "not", a] => do pure (.not (← toBE? a))
+  | _ => none
+end
+
+open Dask.Frame in
+def toOpF? : SExp → Option Dask.Frame.Op
+  | .list [.sym "project", cols] => do pure (.project (← cols.toNats?))
+  | .list [.sym "filter", p] => do pure (.filter (← toBE? p))
+  | .list [.sym "assign", .int j, e] => do pure (.assign j.toNat (← toCE? e))
+  | _ => none
+
+/-- a row is `(idx c0 c1 …)` -/
+def toRow? : SExp → Option Dask.Frame.Row
+  | .list (.int i :: cs) => do pure { idx := i, cells := (← cs.mapM toCell?) }
+  | _ => none
+def toFrame? (e : SExp) : Option Dask.Frame.Frame := do (← e.toList?).mapM toRow?
+def ofRow (r : Dask.Frame.Row) : SExp := .list (.int r.idx :: r.cells.map ofCell)
+def ofFrame (f : Dask.Frame.Frame) : SExp := .list (f.map ofRow)
+
+/-- `(pipe (ops…) (parts…))` ↦ partitions of the blockwise pipeline -/
+def hPipe : Handler := handler fun args =>
+  match args with
+  | [ops, parts] => do
+    let ops ← (← ops.toList?).mapM toOpF?
+    let parts ← (← parts.toList?).mapM toFrame?
+    let out := Dask.Frame.daskPipeline ops { parts := parts }
+    pure (.list (out.parts.map ofFrame))
+  | _ => none
+
+/-- `(pipespec (ops…) (rows…))` ↦ the pipeline on the whole frame (pandas semantics) -/
+def hPipeSpec : Handler := handler fun args =>
+  match args with
+  | [ops, rows] => do
+    let ops ← (← ops.toList?).mapM toOpF?
+    pure (ofFrame (Dask.Frame.pipeline ops (← toFrame? rows)))
+  | _ => none
+
 end DfRows
 
 open DfRows in
@@ -186,6 +253,7 @@ def table : List (String × Handler) := [
   ("cum", hCum), ("cumdf", hCumDF), ("cumspec", hCumSpec), ("takelast", hTakeLast),
   ("aggss", hAggSS), ("aggvs", hAggVS),
   ("overlap", hOverlap), ("winspec", hWinSpec), ("sideok", hSideOK), ("combined", hCombined),
-  ("rollblockwise", hRollBlockwise), ("fillu", hFillU), ("fillspec", hFillSpec)]
+  ("rollblockwise", hRollBlockwise), ("fillu", hFillU), ("fillspec", hFillSpec),
+  ("pipe", hPipe), ("pipespec", hPipeSpec)]
 
 def main : IO Unit := runDriver table
